@@ -17,9 +17,10 @@ def _gen(rng, depth, vars_):
             return v, (lambda env, n=v.val: env[n])
         k = Fraction(rng.randint(-6, 6), rng.choice([1, 2, 3]))
         return tm.const(k), (lambda env, k=float(k): k)
-    op = rng.choice(["add", "add", "sub", "mul", "mul", "div", "neg", "pow2", "pow3", "abs", "max", "min", "ite", "exp", "logp", "sqrtp", "scale", "powm1"])
+    op = rng.choice(["add", "add", "sub", "mul", "mul", "div", "neg", "pow2", "pow3", "abs", "max", "min", "ite", "exp", "logp", "sqrtp", "scale", "powm1",
+                     "Phi", "sin", "cos", "logsumexp", "logprod", "explog", "expprod", "logscaled", "logmax", "Phimin"])
     a, fa = _gen(rng, depth - 1, vars_)
-    if op in ("add", "sub", "mul", "div", "max", "min", "ite"):
+    if op in ("add", "sub", "mul", "div", "max", "min", "ite", "logsumexp", "logprod", "expprod", "logmax", "Phimin"):
         b, fb = _gen(rng, depth - 1, vars_)
     if op == "add":
         return tm.add(a, b), (lambda env: fa(env) + fb(env))
@@ -57,6 +58,37 @@ def _gen(rng, depth, vars_):
     if op == "sqrtp":
         arg = tm.add(tm.mul(a, a), tm.const(Fraction(1, 5)))
         return tm.sqrt(arg), (lambda env: math.sqrt(fa(env) ** 2 + 0.2))
+    if op == "Phi":
+        return tm.Phi(a), (lambda env: 0.5 * math.erfc(-fa(env) / math.sqrt(2)))
+    if op == "sin":
+        return tm.sin(a), (lambda env: math.sin(fa(env)))
+    if op == "cos":
+        return tm.cos(a), (lambda env: math.cos(fa(env)))
+    if op == "logsumexp":
+        c1, c2 = Fraction(rng.randint(1, 4), rng.choice([1, 2, 3])), Fraction(rng.randint(1, 4), rng.choice([1, 2]))
+        shift, fs = _gen(rng, 1, vars_)
+        t_ = tm.add(shift, tm.log(tm.add(tm.scale(tm.exp(tm.sub(tm.scale(a, Fraction(1, 8)), shift)), c1),
+                                         tm.scale(tm.exp(tm.sub(tm.scale(b, Fraction(1, 8)), shift)), c2))))
+        return t_, (lambda env, c1=float(c1), c2=float(c2): math.log(c1 * math.exp(fa(env) / 8) + c2 * math.exp(fb(env) / 8)))
+    if op == "logprod":
+        arg = tm.mul(tm.exp(tm.scale(a, Fraction(1, 8))), tm.add(tm.mul(b, b), tm.const(Fraction(1, 3))))
+        return tm.log(arg), (lambda env: fa(env) / 8 + math.log(fb(env) ** 2 + 1 / 3))
+    if op == "explog":
+        k = rng.choice([Fraction(1, 2), Fraction(1, 3), Fraction(2), Fraction(-1), Fraction(3, 2), Fraction(-2, 3)])
+        base = tm.add(tm.mul(a, a), tm.const(Fraction(1, 3)))
+        return tm.exp(tm.scale(tm.log(base), k)), (lambda env, k=float(k): (fa(env) ** 2 + 1 / 3) ** k)
+    if op == "expprod":
+        e_ = rng.choice([1, 2, -1])
+        t_ = tm.mul(tm.exp(tm.scale(a, Fraction(1, 8))), tm.powi(tm.exp(tm.scale(b, Fraction(1, 8))), e_))
+        return t_, (lambda env, e_=e_: math.exp(fa(env) / 8) * math.exp(fb(env) / 8) ** e_)
+    if op == "logscaled":
+        k = Fraction(rng.randint(1, 9), rng.choice([1, 2, 4]))
+        return tm.log(tm.scale(tm.add(tm.mul(a, a), tm.const(Fraction(1, 3))), k)), (lambda env, k=float(k): math.log(k * (fa(env) ** 2 + 1 / 3)))
+    if op == "logmax":
+        pa, pb = tm.add(tm.mul(a, a), tm.const(Fraction(1, 3))), tm.add(tm.mul(b, b), tm.const(Fraction(1, 5)))
+        return tm.log(tm.scale(tm.max_(pa, pb), Fraction(3, 2))), (lambda env: math.log(1.5 * max(fa(env) ** 2 + 1 / 3, fb(env) ** 2 + 0.2)))
+    if op == "Phimin":
+        return tm.Phi(tm.sub(tm.min_(a, b), tm.const(1))), (lambda env: 0.5 * math.erfc(-(min(fa(env), fb(env)) - 1) / math.sqrt(2)))
     if op == "scale":
         k = Fraction(rng.randint(-5, 5), rng.choice([1, 2, 4]))
         return tm.scale(a, k), (lambda env, k=float(k): k * fa(env))
